@@ -98,6 +98,17 @@ func VerifGroupStop(which int) {
 	switch which {
 	case 0:
 		go func() { g.Do(l.f) }()
+		if vNative() {
+			// native replay only: issue the racing registration from several goroutines
+			// repeatedly, so that the window the scheduler found is hit within a few runs
+			for w := 0; w < 8; w++ {
+				go func() {
+					for i := 0; i < 300; i++ {
+						g.Do(l.f)
+					}
+				}()
+			}
+		}
 	case 1:
 		go func() {
 			t := g.Trigger(l.f)
